@@ -45,6 +45,16 @@ REGISTRY = {
         ],
         "require": {"c04:accepted": 1649, "c04:accepted-bad-body": 543, "c04:mut:extend": 712, "c04:mut:flip": 710, "c04:mut:len": 1308, "c04:mut:none": 1335, "c04:mut:ptype": 902, "c04:mut:random": 902, "c04:mut:stype": 905, "c04:mut:truncate": 724, "c04:rejected": 5307, "c04s:bad-length-huge": 385, "c04s:bad-length-small": 326, "c04s:boundaries": 959, "c04s:delay:idle-long": 502, "c04s:delay:none": 3645, "c04s:delay:short": 2421, "c04s:delay:stall": 1369, "c04s:drip-head": 860, "c04s:few": 1089, "c04s:many": 1091, "c04s:role:active": 1983, "c04s:role:passive": 2016},
     },
+    "C06": {
+        "level": "exploration",
+        "claim": "1-12 concurrent reply-expected sends against a raw peer whose reply-side behaviour is a generated policy per transaction (permuted/delayed/duplicate/missing/late replies, rejects with every reason, SxF0 aborts, peer primaries and control responses reusing in-flight system bytes, unsolicited secondaries, link drops, caller deadlines/cancels); in virtual time every call has a single predicted outcome and instant, checked together with reply identity, T3 lower bound, never (nil,nil), a delivery ledger (each inbound data frame reaches exactly one recipient, handlers in arrival order) and pairwise distinct system bytes.",
+        "trust": "Delays are drawn from a lattice on which no two causes coincide (inherent ties are not generated); the Go scheduler inside the library is sampled; peer data secondaries that reuse a library CONTROL transaction's system bytes are not generated (the statement leaves them open).",
+        "technique": "property-based testing (rapid): concurrent histories in testing/synctest against a routing model + per-call ledger",
+        "tests": [
+            {"name": "TestC06Replies", "shards": 8, "shards_thorough": 16},
+        ],
+        "require": {"c06:drop:early": 189, "c06:drop:mid": 179, "c06:drop:none": 631, "c06:outcome:closed": 129, "c06:outcome:ctx": 242, "c06:outcome:reject": 360, "c06:outcome:reply": 955, "c06:outcome:t3": 175, "c06:policy:abort": 250, "c06:policy:collide-control": 472, "c06:policy:collide-primary": 244, "c06:policy:dup": 364, "c06:policy:dup-late": 282, "c06:policy:late": 296, "c06:policy:none": 284, "c06:policy:reject": 290, "c06:policy:reply": 802, "c06:policy:unsolicited": 238},
+    },
     "C07": {
         "level": "exploration",
         "claim": "Real connections (both roles) driven into each way of being not-selected (never opened, closed, connecting, connected-not-selected, deselected, between reconnect generations, select rejected); every data-sending entry point is checked for error identity, exactly one counted drop and zero data bytes at the raw peer; inbound data while not selected must be answered by Reject reason 4 echoing session id and system bytes with no handler call and the link up; data pipelined behind the establishing Select under drawn segmentations must be delivered in order.",
